@@ -155,14 +155,21 @@ def run(prog, rep, tier):
     else:
         r1.fail(pv.name, "med-strip", "a received MED is not removed (only) towards eBGP peers before export policy", pv.loc())
     # export_nexthop
-    nv = view(prog, prog.one(r"rustybgpd::event::export::PeerExportContext::export_nexthop"))
+    # the next-hop rule lives in export_nexthop, or (helper inlined) in its only caller pre_policy_defaults
+    _nk = prog.find(r"rustybgpd::event::export::PeerExportContext::export_nexthop") or prog.find(r"rustybgpd::event::export::PeerExportContext::pre_policy_defaults")
+    if not _nk:
+        raise __import__("analysis.facts", fromlist=["AnchorError"]).AnchorError("neither export_nexthop nor pre_policy_defaults found")
+    nv = view(prog, _nk[0])
     r1.analysed(nv.name)
     # decision table over the entry->return paths: for a peer-learned route (is_local false) that has a stored next hop, the
     # value left in *nexthop is the stored one for RsClient / Ibgp / IbgpRrClient and the local address for Ebgp / ConfedEbgp.
     # (match on a tuple, guard clauses, let-else: all the same table)
     from ..paths import enumerate_paths, PathLimit
     ROLES = {"RsClient", "Ibgp", "IbgpRrClient", "ConfedEbgp", "Ebgp"}
-    nh_name, loc_name = nv.local_name.get(2), nv.local_name.get(4)
+    # parameters by type: the `&mut Option<Nexthop>` being rewritten and the (last) bool `is_local`
+    NH = next((i for i in range(1, nv.f["argc"] + 1) if "&mut" in nv.f["locals"][i] and "Option<" in nv.f["locals"][i] and "Nexthop" in nv.f["locals"][i]), 2)
+    LOC = max([i for i in range(1, nv.f["argc"] + 1) if nv.f["locals"][i] == "bool"] or [4])
+    nh_name, loc_name = nv.local_name.get(NH), nv.local_name.get(LOC)
     try:
         npaths = enumerate_paths(nv, Renderer(nv, depth=12), max_paths=20000)
     except PathLimit:
@@ -188,7 +195,7 @@ def run(prog, rep, tier):
         last = None
         for b in blocks:
             for s_ in nv.blocks[b]["s"]:
-                if "rv" in s_ and s_["p"]["l"] == 2 and s_["p"].get("p") == ["*"]:
+                if "rv" in s_ and s_["p"]["l"] == NH and s_["p"].get("p") == ["*"]:
                     last = s_
         if last is not None:
             # follow the value to its definition on this path
@@ -200,7 +207,7 @@ def run(prog, rep, tier):
                     q = rv_["o"].get("c") or rv_["o"].get("m")
                     if q is None:
                         break
-                    if q["l"] == 2:
+                    if q["l"] == NH:
                         act = "keep"
                         break
                     ds = [d for d in nv.defs().get(q["l"], []) if d[0] in pos]
@@ -218,7 +225,7 @@ def run(prog, rep, tier):
                     if q is None:
                         act = "?"
                         break
-                    if q["l"] == 2:
+                    if q["l"] == NH:
                         act = "keep"
                         break
                     ds = [d for d in nv.defs().get(q["l"], []) if d[0] in pos]
